@@ -108,6 +108,16 @@ Theorem concurrent_temporary_release_on_shared_holder : forall n tr s h,
 Proof. exact shared_context_lemma. Qed.
 Print Assumptions concurrent_temporary_release_on_shared_holder.
 
+(* A panic in the function passed to TemporarilyRelease (label LFPanic) is followed by exactly the operations
+   that follow its return: block()'s re-acquire is deferred.  Every theorem of this file quantifies over all
+   label lists, LFPanic included, so a holder whose f panicked (and whose panic the client recovered further
+   up) is re-acquired or found released like any other; a block() that skipped its re-acquire when f panics
+   would leave the holder blocked without a token while its goroutine goes on: not a behaviour of this model,
+   rejected by the trace-conformance check and reported by the oracle as over-admission. *)
+Theorem panic_in_f_same_as_return : forall fx s t, step fx s (LFPanic t) = step fx s (LFRet t).
+Proof. exact panic_same_as_return_lemma. Qed.
+Print Assumptions panic_in_f_same_as_return.
+
 (* Several limiters on one context chain (With on a context that already has a limiter): Limiter/ModelMulti.v,
    one component per limiter, labels tagged with their limiter; which limiter / holder a call resolves to is
    the client's context chain and is arbitrary here.  Every schedule of the chain projects, limiter by
